@@ -445,9 +445,13 @@ def _schema_required(ctx, func):
     for ref in refs:
         fname, _, pointer = ref.partition('#')
         path = os.path.join(base, fname)
+        rel = 'lib/python/treadmill/etc/schema/' + fname
         try:
-            with open(path) as fh:
-                data = json.load(fh)
+            if rel in getattr(ctx.index, 'overlay', {}):
+                data = json.loads(ctx.index.overlay[rel])   # self-test
+            else:
+                with open(path) as fh:
+                    data = json.load(fh)
         except (IOError, ValueError):
             continue
         node = data
